@@ -133,7 +133,7 @@ def run_monitored(case, res, mine, keyfmt=None):
     contracts.CONTEXT['R0_expected'] = list(call.R0) if call.model == 'SIR' else None
     contracts.CONTEXT['R0_expected_for'] = call.sim
     # simultaneous events are certain with constant durations; summary() merges rows of equal time by design
-    contracts.CONTEXT['distinct_times'] = not (call.sim in ('fast_nonMarkov_SIR', 'fast_nonMarkov_SIS') and case['rule']['kind'] == 'const')
+    contracts.CONTEXT['distinct_times'] = not (call.sim in ('fast_nonMarkov_SIR', 'fast_nonMarkov_SIS') and case['rule']['kind'] in ('const', 'lattice'))
     if call.sim == 'fast_nonMarkov_SIR':
         contracts.CONTEXT['positive_recovery'] = not (case['rule']['kind'] == 'exp' and case['rule']['gamma'] <= 0)
     simcase.seed_all(case['seed'])
